@@ -10,7 +10,9 @@ PROPERTIES = {
         not_reached=[],
     ),
     "C02": dict(
-        modules=["sample_checking", "requirements", "scenarios"],
+        modules=["sample_checking", "requirements", "scenarios", "planar"],
+        # the built-in requirements are decided by the containment / intersection procedures of C04
+        borrow=dict(modules=["solids"], match=["containsObject", "Object.intersects", "MeshVolumeRegion.intersects", "_circumradius"]),
         level="proof",
         claim="the checker accepts a sample only if every active mandatory requirement holds, for every order/subset the history-dependent sorting can choose (sort modelled as an arbitrary permutation); default requirement set and requirement predicates as postconditions",
         note="geometric predicates abstract (C04/C17); falsifiedBy assumed pure in the sample",
@@ -27,6 +29,9 @@ PROPERTIES = {
     ),
     "C08": dict(
         modules=["relations", "pruning"],
+        # pruning erodes containers by (minimum radius - maximum offset) taken from support intervals: their
+        # soundness contracts (written for C05) are part of what C08 depends on
+        borrow=dict(modules=["lifting"], match=["supportInterval", "unionOfSupports", "supmin", "supmax", "support of", "monotonicDistributionFunction"]),
         level="proof",
         claim="bound extraction from requirement syntax is sound for every comparison operator and operand shape; relative-heading feasibility over-approximates; erosion/termination arithmetic",
         note="shapely buffer/intersection assumed exact set operations; equality of distributions with/without pruning not reached (only: no feasible position lost, none added)",
